@@ -184,6 +184,7 @@ func (st *State) newOpaqueDoc(name string) *Str {
 func (e *Engine) registerDomain() {
 	r := func(name string, f Intrinsic) { e.intr[name] = f }
 	e.registerProto()
+	e.registerTLS()
 
 	// ------------------------------------------------------------ vn: abstract documents
 	r(vnPkg+".JWT", func(c *CallCtx) []Outcome {
